@@ -303,7 +303,7 @@ def check(ctx):
         le = lineend_prefixes(src)
         if quick:
             le = le[-1:] if name in ("boolexpr", "returns", "semis", "infinite", "varblock", "class", "lambda", "trycatch", "pp-if-inside",
-                                     "pp-define-multi", "pp-define-stmt", "pp-last-nonl") else []
+                                     "pp-define-multi", "pp-define-stmt", "pp-last-nonl", "pp-define-in-case", "cmtblock", "functor", "convop", "goto") else []
         for pid, x in le:
             single_inputs.append(("%s:%s" % (name, pid), lang, x))
     for lang in (("C",) if quick else skel.LANGS):
